@@ -2,7 +2,7 @@
   Driver/StoreDrv.lean — line protocol for FillAbsent and the candle-store model.
   `fa <start> <stop> <n> (ts o c h l v)*` · `st addseq <n> (…)*` · `st addmulti <k> (…)* <m> (…)*` ·
   `st get <tfMinutes> <k> (short…) <j> (long…)` · `st current <tfMinutes> <k> (…) <j> (…)` ·
-  `st spacing <n> (…)*` · `st addseqd <bucket> <n> (…)*` (the same sequence through `add_candle` ON THE ARRAY MODEL)
+  `st spacing <n> (…)*` · `st addseqd <bucket> <n> (…)*` · `st addmultid <bucket> <k> (…)* <m> (…)*` (the same calls ON THE ARRAY MODEL, Jesse/StoreD.lean)
 -/
 import Jesse.Wire
 import Jesse.FillAbsent
@@ -50,6 +50,17 @@ def handleSt (args : List String) : String :=
        (match StoreD.batchAddD (DynArray.new b 6 none) (cs.map StoreD.enc) with
         | .ok a => "ok [" ++ ";".intercalate (a.abs.map (fun r => " ".intercalate (r.map showRat))) ++ "]"
         | .error e => "err " ++ e.name)
+     | _, _ => "bad-op")
+  | "addmultid" :: b :: rest =>
+    (match b.toNat?, countThen rest with
+     | some b, some (arr, rest2) => (match countThen rest2 with
+        | some (cs, []) =>
+          (match StoreD.batchAddD (DynArray.new b 6 none) (arr.map StoreD.enc) with
+           | .ok a0 => (match StoreD.addMultipleD a0 (cs.map StoreD.enc) with
+              | .ok a => "ok [" ++ ";".intercalate (a.abs.map (fun r => " ".intercalate (r.map showRat))) ++ "]"
+              | .error e => "err " ++ e.name)
+           | .error e => "err " ++ e.name)
+        | _ => "bad-op")
      | _, _ => "bad-op")
   | "addmulti" :: rest =>
     (match countThen rest with
